@@ -265,9 +265,10 @@ class TheoryOracle(walkers.DagWalker):
     @walkers.handles([op.STR_LENGTH, op.STR_INDEXOF, op.STR_TO_INT])
     def walk_str_int(self, formula: FNode, args: List[Theory], **kwargs) -> Theory:
         theory_out = self.walk_combine(formula, args, **kwargs)
-        theory_out.integer_arithmetic = True
-        theory_out.integer_difference = True
-        return theory_out
+        # The result is an integer: combine (rather than overwrite) so that
+        # an integer argument that is not in DL keeps the theory out of DL
+        int_theory = Theory(integer_arithmetic=True, integer_difference=True)
+        return theory_out.combine(int_theory)
 
     def walk_bv_tonatural(self, formula: FNode, args: List[Theory], **kwargs) -> Theory:
         #pylint: disable=unused-argument
